@@ -432,6 +432,14 @@ def static_inventory(ctx):
             if not ok3:
                 ctx.extra["op_table_offenders"] = ores["offenders"][:12]
             INV["optable"] = tab
+            ic = ores.get("iteration_conflicts") or []
+            ctx.extra.setdefault("op_table_iteration", {})["deep_iteration_sites"] = sorted(set("%s %s" % (x["site"], x["call"]) for x in ic))
+            ctx.extra["op_table_iteration"]["keyset_reads"] = {r_["op"]: len(r_.get("keyset_reads", [])) for r_ in tab["rows"]}
+            if ic:
+                # heuristic (type-blind) clause: advisory search trigger; the iter_race phase is the search
+                ctx.extra.setdefault("static_advisories", []).append({"file": "translators/opreads.py", "first_failing_clause": "no deep iteration over a shared object next to a publication of a new key",
+                                                                      "what": {"deep_iteration_vs_new_key": ic[:6]}})
+                INV["advisory_failed"] = True
             d_ = json.load(open(INV["path"]))         # the workers need the read sets too (unread locations are volatile)
             d_["optable"] = {"rows": [{"op": r_["op"], "reads": r_["reads"]} for r_ in tab["rows"]]}
             json.dump(d_, open(INV["path"], "w"))
